@@ -1241,6 +1241,9 @@ def model(ex, st, c, args):
         if cur.variant == 0:
             return none()
         return some(Ref(cell, list(path) + [('downcast', 'Some'), ('field', 0)], mut=(c == 'Option::as_mut')))
+    if c in ('std::slice::from_ref', 'core::slice::from_ref', 'std::array::from_ref', 'core::array::from_ref'):
+        # a shared one-element view of a value: read-only, so a copy of the element is indistinguishable
+        return Ref(st.new_cell(VecV([copy_value(ex.deref1(args[0]))])), [])
     # ----- std::mem
     if c in ('std::mem::replace', 'core::mem::replace', 'std::mem::take', 'core::mem::take'):
         cell, path = ex.deref_target(args[0])
